@@ -12,6 +12,7 @@ mod lexseg;
 mod front;
 mod gram;
 mod nt;
+mod oscat;
 mod lspx;
 mod report;
 mod util;
